@@ -329,7 +329,6 @@ package consensus
 //@   trusted
 //@   assigns nothing
 //@ func State.signVote
-//@   requires wf: len(cs.RoundState.Validators.Validators) <= 2147483647
 //@   assigns walSyncedForSign
 //@   atcall PrivValidator.SignVote exact: walSyncedForSign && arg1.Height == cs.RoundState.Height && arg1.Round == cs.RoundState.Round && arg1.Type == msgType && arg1.BlockID.Hash == hash
 //@   ensures vote: result1 == nil ==> (result0 != nil && result0.Height == cs.RoundState.Height && result0.Round == cs.RoundState.Round && result0.Type == msgType && result0.BlockID.Hash == hash)
@@ -337,7 +336,6 @@ package consensus
 // signAddVote signs through signVote with exactly the type and block hash it was given, and does not write the round
 // state (it queues the signed vote for the node itself).
 //@ func State.signAddVote
-//@   requires wf: len(cs.RoundState.Validators.Validators) <= 2147483647
 //@   assigns except(consensus.State, cstypes, types, sm), walSyncedForSign
 //@   atcall State.signVote same: arg1 == msgType && arg2 == hash
 
